@@ -30,11 +30,18 @@ On the expanded circuit:
   functions of `m` ALONE: discover the prepare/measure traces of `semSkel m`, take the segment each serialises to
   (`C03_serialize`), render its gates from `specTable m`; the visits are `Walk.specVisits` of the same skeleton (`C08_run_visits`).
 
-Without any hypothesis:
-* **`C03_run_exists`** — for every text, configuration and override list: if `runModel cfg ov txt = .ok s` then the circuit `x` the
-  emulator was handed HAS a meaning `m` (`parsed_expand_meaning`: the constructors' checks hold again after `fill_in_let`,
-  `C05_revalidate`; `expand_macros` keeps them, `expand_vok`; a flat typed circuit whose registers are valid chains and whose
-  literal indices are in range evaluates, `flat_os_meaning`) and `s = specSummary m`.
+Without any hypothesis — for every text, configuration (gate set, autoload, import function) and override list:
+* **`C03_run_total`** — the capstone.  If `runModel cfg ov txt = .ok s` then the program, subcircuit blocks spelled out (`c₁`), HAS a
+  meaning tree `x₁` under the overrides (`rawMeaning`: `Sem.meaning` before `Sem.norm`; `Sem.meaning (normOv ov) c₁ = x₁.norm`) and
+  `s = specSummary (spl x₁)`: the tree the run walks is `x₁` with the blocks of the expanded macro calls spliced
+  (`ExpandMacros.spl`), and the subcircuits, the subcircuit of every readout and the gates of every subcircuit — each token a gate
+  application of the source's meaning with ITS resolved qubits and numbers — are computed from that tree alone.
+  (`parsed_source_meaning`: the source has a meaning because its expansion succeeds — `filled_meaning`, the converse direction
+  of `C04_meaning` for what `fill_in_let` returns of a parsed program.)
+* **`C03_run_exists`** — the same on the expanded circuit: the circuit `x` the emulator was handed HAS a meaning `m`
+  (`parsed_expand_meaning`: the constructors' checks hold again after `fill_in_let`, `C05_revalidate`; `expand_macros` keeps them,
+  `expand_vok`; a flat typed circuit whose registers are valid chains and whose literal indices are in range evaluates,
+  `flat_os_meaning`) and `s = specSummary m`.
 
 From the source program (`parseProgram cfg txt = .ok c`, `runCircuit ov c = .ok s`):
 * **`C03_run_meaning_raw`**, **`C03_run_meaning_raw_source`**, **`C03_run_text`** — the capstone.  If the program evaluates, under
@@ -49,18 +56,19 @@ From the source program (`parseProgram cfg txt = .ok c`, `runCircuit ov c = .ok 
 
 ## What is assumed, and why
 
-* In the theorems about a bare expanded circuit (`C03_run_table` … `C03_run_summary`) that the specification GIVES the circuit a
+* In the theorems about a BARE expanded circuit (`C03_run_table` … `C03_run_summary`) that the specification gives the circuit a
   meaning (`hm`) is a hypothesis.  It cannot be derived from `FlatT` and the success of the run: `FlatT` is a typing, and a flat
   typed circuit can hold `map a q[0:10]` over `register q[4]` (the constructors refuse it, `FlatT` does not know), on which
   `X a[1]` runs but has no meaning (`Sem.evalReg`: "slice leaves its source") — the example `c03NoMeaning` below evaluates exactly
-  this.  For the expansion of a PARSED program the hypothesis is PROVED (`parsed_expand_meaning`), whence `C03_run_exists`.
-* In the theorems that speak of the meaning of the SOURCE (`C03_run_meaning…`, `C03_run_text`) that the source has a meaning is a
-  hypothesis ("for every valid program").  `C04_meaning` and `expandSubcircuits_meaning` go from the source to the expansion only;
-  that a program whose expansion has a meaning has one itself (`C03_run_spelled_full`) is NOT proved — and for the program
-  as written it is false when an override makes a subcircuit count a non-integer (`c03CountText`).
+  this.  For the expansion of a PARSED program the hypothesis is PROVED (`parsed_expand_meaning`), and so is the meaning of the
+  source with its subcircuit blocks spelled out (`parsed_source_meaning`): `C03_run_exists`, `C03_run_total` assume nothing.
+* For the program AS WRITTEN (`C03_run_text`, `C03_run_meaning_raw_source`, `C03_run_meaning_source`) that it has a meaning
+  stays a hypothesis, and cannot be dropped: the count of a subcircuit block is removed by `expand_subcircuits` before
+  `fill_in_let` sees it, so an override that makes it a non-integer does not stop the run but leaves the program as written
+  without a meaning (`c03CountText` below evaluates this).
 * `C03_run_meaning` relates the run to a tree `m` with `m.norm = m₀`, not to `m₀` itself: `Sem.meaning` splices a block nested in a
   block of the same kind, which changes the ADDRESSES the walkers use, not the gates (`C03_specTraces_norm_full`, NOT proved;
-  `C03_run_meaning_raw` avoids the question by naming the tree exactly).
+  `C03_run_meaning_raw` / `C03_run_total` avoid the question by naming the tree exactly).
 -/
 namespace Jaqal.RunModel
 open Jaqal Jaqal.Builder Jaqal.Sem Jaqal.Walk
@@ -576,18 +584,18 @@ theorem C03_run_spelled (cfg : Config) (ov : List (String × Num)) (txt : String
   obtain ⟨x₁, hm⟩ := parsed_source_meaning hp h1 hx
   exact ⟨x₁, hm, (C03_run_meaning_raw cfg ov txt c c₁ s x₁ hp h1 hm hr).2.1⟩
 
-/-- The full statement, NOT proved: `C03_run_meaning_raw` without the hypothesis that the specification gives the SOURCE (subcircuit
-blocks spelled out) a meaning — i.e. a parsed program that runs has a meaning (its expansion has one: `parsed_expand_meaning`;
-missing is the converse direction of `expStmt_sem`: a filled circuit whose expansion evaluates evaluates).  For the program AS
-WRITTEN the statement is false: the count of a subcircuit block is dropped by `expand_subcircuits` before `fill_in_let` sees it, so
-an override that makes it a non-integer does not stop the run but leaves the program as written without a meaning —
-`c03CountText` below.  The non-vacuity examples evaluate the hypothesis on concrete programs. -/
+/-- The full statement: `C03_run_meaning_raw` without the hypothesis that the specification gives the source (subcircuit blocks
+spelled out) a meaning.  PROVED: `C03_run_spelled` (`C03_run_spelled_full_holds`).  (For the program AS WRITTEN the
+corresponding statement is false: `c03CountText` below.) -/
 def C03_run_spelled_full : Prop :=
   ∀ (cfg : Config) (ov : List (String × Num)) (txt : String) (c c₁ : Circuit) (s : RunSummary),
     Pipeline.parseProgram cfg txt = .ok c → ExpandSubcircuits.expandSubcircuits none none c = .ok c₁ → runCircuit ov c = .ok s →
     ∃ x₁, rawMeaning (FillIn.normOv ov) c₁ = .ok x₁ ∧ specSummary (ExpandMacros.spl x₁) = some s
 
-/-- … and the second thing NOT proved: that `specTraces` does not see `Sem.norm` (the walkers' ADDRESSES change when a block nested
+theorem C03_run_spelled_full_holds : C03_run_spelled_full :=
+  fun cfg ov txt c c₁ s hp h1 hr => C03_run_spelled cfg ov txt c c₁ s hp h1 hr
+
+/-- NOT proved: that `specTraces` does not see `Sem.norm` (the walkers' ADDRESSES change when a block nested
 in a block of the same kind is spliced, the gates do not), so that `C03_run_meaning` could speak of `specTraces m₀` for the
 normalised meaning `m₀` of the source itself.  (`C03_run_meaning_raw` makes this unnecessary: it names the tree exactly.) -/
 def C03_specTraces_norm_full : Prop := ∀ m : Sem, specTraces m.norm = specTraces m
@@ -604,7 +612,8 @@ def c03Text : String :=
 circuit is `FlatT`, every row of its table renders, its body has a meaning `m`; the source (as written, and with the subcircuit
 blocks spelled out) has a meaning under the overrides.  And the conclusions: `specTraces m` / `specSummary m` are what the run
 reports — and so is `specTraces m₀` for the (normalised) meaning of the source itself, the statement `C03_run_meaning_full` asks
-for. `expected` = the traces. -/
+for; and `specSummary (spl x₁) = some s` for the tree `x₁` the spelled-out source evaluates to, the conclusion of
+`C03_run_total`. `expected` = the traces. -/
 def c03Hyps (cfg : Config) (ov : List (String × Num)) (txt : String) (expected : List (List String)) : Bool :=
   match Pipeline.parseProgram cfg txt with
   | .ok c =>
@@ -625,6 +634,9 @@ def c03Hyps (cfg : Config) (ov : List (String × Num)) (txt : String) (expected 
        | _ => false) &&
       (match meaning (FillIn.normOv ov) c with
        | .ok _ => true
+       | _ => false) &&
+      (match rawMeaning (FillIn.normOv ov) c₁ with
+       | .ok x₁ => specSummary (ExpandMacros.spl x₁) == some s
        | _ => false) &&
       s.traces == expected
     | _, _, _ => false
